@@ -268,10 +268,9 @@ class Executor:
         out = bytearray()
         fd = self.p.stdout.fileno()
         while len(out) < n:
-            t = deadline - time.time()
-            if t <= 0:
+            if deadline.left() <= 0:
                 return None
-            r, _, _ = select.select([fd], [], [], min(t, 5.0))
+            r, _, _ = select.select([fd], [], [], 0.5)
             if not r:
                 if self.p.poll() is not None:
                     return bytes(out) if False else b''
@@ -286,10 +285,9 @@ class Executor:
         out = bytearray()
         fd = self.p.stdout.fileno()
         while True:
-            t = deadline - time.time()
-            if t <= 0:
+            if deadline.left() <= 0:
                 return None
-            r, _, _ = select.select([fd], [], [], min(t, 5.0))
+            r, _, _ = select.select([fd], [], [], 0.5)
             if not r:
                 if self.p.poll() is not None:
                     return b''
@@ -309,7 +307,7 @@ class Executor:
             if self.p is not None:
                 self.close()
             self._spawn()
-        deadline = time.time() + timeout
+        deadline = Budget(self.p.pid, timeout)
         try:
             if os.path.getsize(self.errpath) > (1 << 18):
                 os.truncate(self.errpath, 0)
@@ -368,20 +366,56 @@ def _san_tail(text):
     return head + text[start:start + 12000]
 
 
+def proc_cpu_seconds(pid):
+    """CPU time (user + system, all threads) consumed by a process, from /proc; None if it is gone."""
+    try:
+        f = open('/proc/%d/stat' % pid).read()
+        f = f[f.rindex(')') + 2:].split()
+        return (int(f[11]) + int(f[12])) / float(os.sysconf('SC_CLK_TCK'))
+    except (OSError, ValueError, IndexError):
+        return None
+
+
+class Budget:
+    """Time budget of one plan, measured in CPU seconds of the executor process so that a loaded machine does not turn
+    slow plans into 'hangs'; a wall-clock cap (a plan that consumes no CPU at all: a deadlock) bounds it."""
+
+    def __init__(self, pid, seconds):
+        self.pid, self.seconds = pid, seconds
+        self.cpu0 = proc_cpu_seconds(pid) or 0.0
+        self.wall_cap = time.time() + max(8.0 * seconds, 300.0)
+
+    def left(self):
+        if time.time() >= self.wall_cap:
+            return 0.0
+        c = proc_cpu_seconds(self.pid)
+        if c is not None and c - self.cpu0 >= self.seconds:
+            return 0.0
+        return 1.0
+
+
 def run_once_fresh(exe, plan_path, timeout=120.0):
     """Fresh-process replay of a plan file.  Returns (status, transcript, diag)."""
     env = dict(os.environ)
     env['ASAN_OPTIONS'] = ('exitcode=77:detect_leaks=0:abort_on_error=0:allocator_may_return_null=1:'
                            'detect_stack_use_after_return=0')
     env['UBSAN_OPTIONS'] = 'halt_on_error=1:exitcode=77:print_stacktrace=1'
-    try:
-        p = subprocess.run([exe, plan_path], stdout=subprocess.PIPE, stderr=subprocess.PIPE,
-                           env=env, timeout=timeout)
-    except subprocess.TimeoutExpired:
-        return 'hang', '', 'timeout'
+    import tempfile
+    with tempfile.TemporaryFile() as fo, tempfile.TemporaryFile() as fe:
+        p = subprocess.Popen([exe, plan_path], stdout=fo, stderr=fe, env=env)
+        b = Budget(p.pid, timeout)
+        while p.poll() is None:
+            if b.left() <= 0:
+                p.kill()
+                p.wait()
+                return 'hang', '', 'timeout'
+            time.sleep(0.05)
+        fo.seek(0)
+        fe.seek(0)
+        so, se = fo.read(), fe.read()
     if p.returncode != 0:
-        return 'died', p.stdout.decode('latin-1'), 'exit=%d\n%s' % (p.returncode, _san_tail(p.stderr.decode('latin-1')))
-    return 'ok', p.stdout.decode('latin-1'), ''
+        return 'died', so.decode('latin-1'), 'exit=%d\n%s' % (p.returncode, _san_tail(se.decode('latin-1')))
+    return 'ok', so.decode('latin-1'), ''
 
 
 SAN_KIND_RE = re.compile(r'(AddressSanitizer|UndefinedBehaviorSanitizer|runtime error)[: ]+([^\n]*)')
